@@ -293,6 +293,7 @@ func (s *Server) serve(conn net.Conn, session string) {
 		err = e.Encode(resp)
 		if err != nil {
 			s.Log.Printf("[ERROR] [%s] Error encoding KMIP response: %s", session, err)
+			break
 		}
 	}
 }
